@@ -210,11 +210,21 @@ Definition copies (ob : lobs) (h : N) : list cstat :=
   flat_map (fun s => match afind h (lo_status s) with Some c => [c] | None => [] end) (l_shards ob).
 Definition all_hashes (ob : lobs) : list N := flat_map (fun s => akeys (lo_status s)) (l_shards ob).
 
+(* "enough allowed shards" is a premise of the property: an eligible target may stay unplaced only when the replica
+   is at max-shard and no shard has room for it by the coordinator's own admission rule (getFreeShard) *)
+Definition no_room_at_cap (ob : lobs) (t : truth) : bool :=
+  (max_shard o <=? Z.of_nat (length (l_shards ob))) &&
+  forallb (fun s => negb (((max_head o =? 0) || (lo_head s + tr_series t <? max_head o)) && (lo_proc s + tr_total t <? max_proc o)))
+          (l_shards ob).
 (* every eligible target scraped by exactly one shard in normal state, no transfer pending, nothing that left
    discovery still held, no target larger than a shard's limit assigned *)
 Definition converged (active : list N) (ob : lobs) : bool :=
   forallb (fun h => negb (eligible active h) ||
-                    match copies ob h with [c] => tstate_eqb (c_state c) Normal | _ => false end) active &&
+                    match copies ob h with
+                    | [c] => tstate_eqb (c_state c) Normal
+                    | [] => no_room_at_cap ob (truth_of tru h)
+                    | _ => false
+                    end) active &&
   forallb (fun s => forallb (fun kv => tstate_eqb (c_state (snd kv)) Normal &&
                                        existsb (N.eqb (fst kv)) active) (lo_status s)) (l_shards ob).
 Definition placement (ob : lobs) : list (list (N * tstate)) :=
